@@ -40,7 +40,15 @@ def main():
     from sim import scenarios as S
     from sim.ctx import canon
     out = {}
+    pre = payload.get('pre') or {}
     for j, sc in enumerate(payload['scenarios']):
+        if str(j) in pre:
+            # process history: an equal-keyed twin problem is run first in this interpreter
+            try:
+                tw = pre[str(j)]
+                S.run_component(tw, S.build_problem(tw['problem'], None), S.make_algo(tw, S.Env()), S.Env())
+            except Exception:
+                pass
         random.seed(12345)
         np.random.seed(12345)
         torch.manual_seed(12345)
